@@ -47,15 +47,17 @@ def mk(k, b=(), items=(), n=0):
 
 
 class Lab:
-    def __init__(self, rng):
-        import cffi
-        self.ffi = cffi.FFI()
+    def __init__(self, rng, ffi=None):
+        """ffi: an existing FFI (the ffi of a compiled API-mode module); default a fresh in-line FFI"""
+        if ffi is None:
+            import cffi
+            ffi = cffi.FFI()
+        self.ffi = ffi
         self.rng = rng
         self.ntag = 0
         self.keep = []
         self.sizes = []
         self.recs = {}
-        ffi = self.ffi
 
         def alloc(n):
             # the block handed to cffi is followed by a guard area, so that a write past the requested
@@ -104,9 +106,14 @@ class Lab:
                 acc.append(t)
         return acc
 
+    def decl_of(self, a):
+        s = "%s %s { %s };\n" % (a.kw, a.tag, self.body(a))
+        if getattr(a, "typedef", None):
+            s += "typedef %s %s %s;\n" % (a.kw, a.tag, a.typedef)
+        return s
+
     def declare(self, t):
-        src = "".join("%s %s { %s };\n" % (a.kw, a.tag, self.body(a)) for a in self.named_aggs(t, [])
-                      if not getattr(a, "declared", False))
+        src = "".join(self.decl_of(a) for a in self.named_aggs(t, []) if not getattr(a, "declared", False))
         if src:
             self.ffi.cdef(src)
         for a in self.named_aggs(t, []):
@@ -213,6 +220,20 @@ class Lab:
                 members.append(("vlast", self.gen_agg(depth - 1, True, union=False), None))
         return Agg(None if anonymous else self.tag(), union, members)
 
+    def gen_nested_var(self, levels, typedef=False):
+        """struct whose LAST member is (levels-1 more times nested) a struct ending in a flexible array"""
+        rng = self.rng
+        item = self.gen_prim() if rng.random() < 0.8 else self.gen_agg(0, False, union=False)
+        cur = self.gen_agg(0, False, union=False)
+        cur.members.append(("tail", Arr(item, None), None))
+        for _ in range(levels - 1):
+            outer = self.gen_agg(0, False, union=False)
+            outer.members.append(("vlast", cur, None))
+            cur = outer
+        if typedef:
+            cur.typedef = "td_" + cur.tag
+        return cur
+
     # ------------------------------------------------------------ random values
     def gen_leaf(self, p):
         rng, k = self.rng, p.kind
@@ -295,6 +316,28 @@ class Lab:
         self.ffi.buffer(cd)[:] = raw
         self.keep.append(cd)
         return (cd[0] if isinstance(t, Agg) else cd), mk("copy", raw)
+
+    def gen_init_full(self, t):
+        """a positional initializer that reaches every field, down to 3 items of a flexible array"""
+        if isinstance(t, Prim):
+            v, b = self.gen_leaf(t)
+            return v, mk("leaf", b)
+        if isinstance(t, Arr):
+            pairs = [self.gen_init_full(t.item) for _ in range(3 if t.n is None else min(t.n, 2))]
+            return [v for v, _r in pairs], mk("seq", items=[r for _v, r in pairs])
+        vs, rs = [], []
+        for _n, mt, bits, ign in self.flatten(t):
+            if ign:
+                continue
+            if bits is not None:
+                v, b = self.gen_bits(mt, bits)
+                vs.append(v)
+                rs.append(mk("bits", b))
+            else:
+                v, r = self.gen_init_full(mt)
+                vs.append(v)
+                rs.append(r)
+        return vs, mk("seq", items=rs)
 
     def gen_init(self, t, depth):
         rng = self.rng
@@ -379,17 +422,23 @@ class Lab:
         return out
 
     def source_for(self, t):
-        return "".join("%s %s { %s };\n" % (a.kw, a.tag, self.body(a)) for a in self.named_aggs(t, []))
+        return "".join(self.decl_of(a) for a in self.named_aggs(t, []))
 
     # ------------------------------------------------------------ execution
     def run_case(self, t, pyinit, init, desc):
         """t: Agg (ffi.new('X *')), Prim (ffi.new('T *')) or Arr (ffi.new('T[n]')).  Returns the record."""
         isptr = not isinstance(t, Arr)
-        how = {"cdecl": self.cname(t) + (" *" if isptr else ""), "isptr": isptr, "cdef": self.source_for(t)}
+        how = self.how_of(t)
+        return self.run_record(self.rec(t), how, pyinit, init, desc)
+
+    def how_of(self, t):
+        isptr = not isinstance(t, Arr)
+        name = getattr(t, "typedef", None) or self.cname(t)       # a typedef'd struct is allocated through its typedef
+        how = {"cdecl": name + (" *" if isptr else ""), "isptr": isptr, "cdef": self.source_for(t)}
         if not isptr:
             how["open_decl"] = self.cname(Arr(t.item, None))
             how["ptr_tmpl"] = self.declarator(Arr(t.item, 987654321), "(*)").replace(" (*)", "(*)")
-        return self.run_record(self.rec(t), how, pyinit, init, desc)
+        return how
 
     def run_record(self, r, how, pyinit, init, desc):
         """the three executions of one construction, from the type record and the declaration strings only"""
@@ -496,6 +545,46 @@ def render_record(ffi, keep, r, init):
         byname = {f["name"]: f for f in r["fields"]}
         return {e["name"]: field(byname[e["name"]], e["v"]) for e in init["items"]}
     raise core.MachineryError("cannot render initializer kind %r" % k)
+
+
+PRELUDE = "#include <stddef.h>\n#include <wchar.h>\n#include <uchar.h>\n"
+
+
+def build_api_modules(tmp, sources, par=4):
+    """sources: {module name: declarations}.  Out-of-line API modules: cdef + set_source with the same text,
+    emit_c_code, plain gcc (core.build_ext_module).  Returns the directory to put on sys.path."""
+    import cffi, os
+    from concurrent.futures import ThreadPoolExecutor
+    outdir = os.path.join(tmp, "api_mods")
+    os.makedirs(outdir, exist_ok=True)
+    cfiles = []
+    for name, src in sources.items():
+        ffi = cffi.FFI()
+        ffi.cdef(src)
+        ffi.set_source(name, PRELUDE + src)
+        c = os.path.join(outdir, name + ".c")
+        ffi.emit_c_code(c)
+        cfiles.append((name, c))
+    with ThreadPoolExecutor(max_workers=par) as ex:
+        list(ex.map(lambda nc: core.build_ext_module(nc[0], nc[1], outdir), cfiles))
+    return outdir
+
+
+def same_layout(ffi, r):
+    """does the (compiled) ffi report the layout of the type record r?  (called only after the executions)"""
+    if r["k"] == "arr":
+        return same_layout(ffi, r["item"])
+    if r["k"] != "struct":
+        return ffi.sizeof(r["cn"]) == r["size"]
+    ct = ffi.typeof(r["cn"])
+    if ffi.sizeof(ct) != r["size"] or [n for n, _f in ct.fields] != [f["name"] for f in r["fields"]]:
+        return False
+    for (_n, f), g in zip(ct.fields, r["fields"]):
+        if f.offset != g["off"] or (g["bs"] >= 0 and (f.bitsize != g["bs"] or f.bitshift != g["sh"])):
+            return False
+        if g["bs"] < 0 and not same_layout(ffi, g["t"]):
+            return False
+    return True
 
 
 def strip(rec):
